@@ -10,7 +10,8 @@ RULE = ('smooth sources: chains of 2..40 G1 cubics sampled (Hermite) from analyt
         'source\'s end points, two-sided Hausdorff distance <= 2 * accuracy (dense samples of either curve against the exact nearest point of the other), offset: '
         '| dist(p, source cubic) - |d| | <= 2 * accuracy for samples p of the fitted path; simplify: same number of sub-paths, same closedness, same start/end points, '
         'corners kept as vertices, two-sided distance <= 2 * accuracy. moment_integrals: implementation vs exact rational model (kernel, regenerated) and vs exact '
-        'integrals of the Bernstein polynomials. non-trivial = distinct op line')
+        'integrals of the Bernstein polynomials. PathSeg::tangents through the corner test: M a L p0 <quadratic/cubic with coincident (or 1e-9 apart) end points, control arms zero / 1e-9..2e-6 / 1e-3 / 1> L b, '
+        'crate vs model skeleton exactly, model tangents finite and zero only if all control points coincide. non-trivial = distinct op line')
 KERNEL_DEPS = [r'momentIntegrals', r'CubicOffset\..*', r'CubicBez\.(eval|deriv|subsegment)', r'QuadBez\.eval']
 UNPROVED = ['every accuracy claim: the fitter accepts a candidate on an APPROXIMATE error estimate (20 ray casts) - no theorem exists; decided by the distance oracle only',
             'simplify_bezpath structure (corner detection, prefix sums): compared on the implementation only, not modelled']
@@ -248,6 +249,44 @@ def skeleton_mismatch(impl_els, model_els, ext):
     return None
 
 
+def skeleton_mismatch_closed(impl_els, model_els, ext):
+    """`skeleton_mismatch` for stretches that may pass through their own end point (closed loops inside a stretch): the same rule - MoveTo / ClosePath / single
+    segments verbatim, a fitted stretch `C a b b` of the model = one or more CurveTo of the implementation, the last of them ending at b (1e-9 extent) - but
+    EVERY CurveTo of the run that ends at b is tried as the end of the stretch, not only the first"""
+    slack = 1e-9 * ext
+    first_err = []
+
+    def go(i, k, cur):
+        if k == len(model_els):
+            if i != len(impl_els):
+                first_err.append(f'the implementation has {len(impl_els) - i} more elements than the model: {impl_els[i:i + 3]}')
+                return False
+            return True
+        m = model_els[k]
+        if i >= len(impl_els):
+            first_err.append(f'the implementation stops after {i} elements, the model goes on with {m}')
+            return False
+        e = impl_els[i]
+        if m[0] == 'C' and cur is not None and m[1] == cur and m[2] == m[3] and e != m:
+            b = m[3]
+            j = i
+            tried = False
+            while j < len(impl_els) and impl_els[j][0] == 'C':
+                if math.hypot(impl_els[j][3][0] - b[0], impl_els[j][3][1] - b[1]) <= slack:
+                    tried = True
+                    if go(j + 1, k + 1, b):
+                        return True
+                j += 1
+            if not tried:
+                first_err.append(f'no CurveTo of the implementation ends at the end {b} of the fitted stretch that starts at {cur} (element {i})')
+            return False
+        if e != m:
+            first_err.append(f'element {i}: implementation {e}, model {m}')
+            return False
+        return go(i + 1, k + 1, e[-1] if e[0] != 'Z' else cur)
+    return None if go(0, 0, None) else first_err[0]
+
+
 @maker(MAKERS)
 def simplify_skeleton(els, acc, opt, stratum):
     """control skeleton of simplify_bezpath: implementation vs the Lean model (Kurbo/Simplify.lean; the fitter itself is abstract there)"""
@@ -265,6 +304,76 @@ def simplify_skeleton(els, acc, opt, stratum):
         v = skeleton_mismatch(out, mod, ext_of(els))
         return ('CORR skeleton: ' + v) if v else None
     return Case(lines, 'IF', judge, stratum, 'corr-F')
+
+
+@maker(MAKERS)
+def tangent_probe(kind, pts, a, b, acc, opt, stratum):
+    """`PathSeg::tangents` (pub(crate), so not callable from the harness) seen through the corner test of simplify_bezpath: the path
+    `M a L p0 <segment> L b` goes through the crate and through the model skeleton (exact comparison of the structure: a corner at p0 on either side of the
+    segment shows as a separate stretch); in addition the model's own `seg.tangents` (binary64) must be finite, and non-zero unless all control points coincide"""
+    from .shapes_common import parse_els
+    els = [('M', a), ('L', pts[0]), (kind,) + tuple(pts[1:]), ('L', b)]
+    vals = [c for q in pts for c in q]
+    lines = [f'path.simplify {H(acc)} {opt} {els_str(els)}', f'path.simplify_skel {els_str(els)}', f'seg.tangents {kind} {H(*vals)}']
+
+    def judge(o):
+        out, err = parse_out(o['I'][0])
+        if err:
+            return err
+        f = o['F'][1]
+        if engine_error(f):
+            return 'CORR engine error (model) ' + f[:80]
+        mod = parse_els(f[3:] if f.startswith('ok ') else f)
+        v = skeleton_mismatch_closed(out, mod, ext_of(els))
+        if v:
+            return 'CORR skeleton: ' + v
+        t = o['F'][2]
+        if engine_error(t):
+            return 'engine error (model seg.tangents) ' + t[:80]
+        tv = [h2f(x) for x in t.split()]
+        if len(tv) != 4 or not all(math.isfinite(x) for x in tv):
+            return f'model tangents not finite: {tv}'
+        point = all(q == pts[0] for q in pts)
+        z0, z1 = tv[0] == 0.0 and tv[1] == 0.0, tv[2] == 0.0 and tv[3] == 0.0
+        if (z0 or z1) != point or (z0 != z1):
+            return f'model tangents {tv} of {kind} {pts}: a zero tangent if and only if all control points coincide is violated'
+        return None
+    return Case(lines, 'IF', judge, stratum, 'corr-F')
+
+
+def tiny_closed_segment(rng):
+    """a quadratic / cubic whose end points coincide (or are 1e-9 apart) with control arms that are zero, tiny (1e-9 .. 2e-6: at or below the EPS = 1e-12
+    threshold on the squared length) or of ordinary size (1e-3, 1)"""
+    dirs = [(1.0, 0.0), (0.0, 1.0), (-1.0, 0.0), (0.0, -1.0), (0.6, 0.8), (-0.8, 0.6), (0.6, -0.8), (-0.6, -0.8)]
+    p0 = rng.choice([(0.0, 0.0), (0.0, 0.0), (1.0, -2.0), (0.25, 0.5), (3.0, 3.0)])
+    size = rng.choice([1e-9, 1e-8, 1e-7, 1e-7, 1e-6, 2e-6, 1e-3, 1.0])
+
+    def arm(zero_ok=True):
+        r = rng.random()
+        if zero_ok and r < 0.3:
+            return p0
+        d = rng.choice(dirs)
+        s = size if r < 0.85 else 1e-7
+        return (p0[0] + s * d[0], p0[1] + s * d[1])
+    r = rng.random()
+    if r < 0.1:
+        d = rng.choice(dirs)
+        end = (p0[0] + 1e-9 * d[0], p0[1] + 1e-9 * d[1])     # nearly closed: the chord is tiny but not zero
+    else:
+        end = p0
+    if rng.random() < 0.4:
+        return 'Q', [p0, arm(), end]
+    return 'C', [p0, arm(), arm(), end]
+
+
+def tangent_probe_case(rng, acc, opt):
+    kind, pts = tiny_closed_segment(rng)
+    dirs = [(1.0, 0.0), (0.0, 1.0), (-1.0, 0.0), (0.0, -1.0), (1.0, 1.0), (-1.0, 1.0), (1.0, -1.0), (-1.0, -1.0), (0.6, 0.8), (-0.8, 0.6), (0.6, -0.8), (-0.6, -0.8)]
+    da, db = rng.choice(dirs), rng.choice(dirs)
+    la, lb = rng.choice([1.0, 2.0, 0.5]), rng.choice([1.0, 2.0, 0.5])
+    a = (pts[0][0] - la * da[0], pts[0][1] - la * da[1])
+    b = (pts[-1][0] + lb * db[0], pts[-1][1] + lb * db[1])
+    return tangent_probe(kind, pts, a, b, acc, opt, 'skeleton-closed-tiny')
 
 
 @maker(MAKERS)
@@ -393,6 +502,8 @@ def generate(rng, tier):
         yield simplify(src_s, acc, (k // 3) % 2, f'simplify-opt{(k // 3) % 2}')
         yield simplify_skeleton(src_s, acc, (k // 3) % 2, 'skeleton')
         yield simplify_skeleton(skeleton_source(rng), acc, k % 2, 'skeleton-grid')
+        for _ in range(4):
+            yield tangent_probe_case(rng, acc, k % 2)
         if k % 4 == 0:
             loop = closed_loop(rng)
             yield fit(loop, acc, (k // 4) % 2, f'fit-closed-loop-opt{(k // 4) % 2}')
